@@ -114,6 +114,85 @@ Fixpoint value_has_expref (v : value) : bool :=
 
 Definition is_option (t : ty) : bool := match t with TOption _ => true | _ => false end.
 
+(** [visit_map] of a map: keys through the key deserializer, entries collected in the order of the key type *)
+Section Entries.
+  Variable k : kty.
+  Variable dv : value -> option sval.
+  Fixpoint de_entries (o : list (str * value)) (acc : list (sval * sval)) : option (list (sval * sval)) :=
+    match o with
+    | [] => Some acc
+    | (ks, x) :: o' =>
+        match dekey k ks, dv x with
+        | Some a, Some b => de_entries o' (map_insert k acc a b)
+        | _, _ => None
+        end
+    end.
+End Entries.
+
+(** the list-shaped parts of the visitors, over the decoder [d] of the component types *)
+Section Parts.
+  Variable d : ty -> value -> option sval.
+
+  (** [visit_seq] of a tuple / tuple struct / tuple variant: one element per component, none left over *)
+  Fixpoint de_list (ts : list ty) (l : list value) : option (list sval) :=
+    match ts, l with
+    | [], [] => Some []
+    | t1 :: ts', x :: l' => match d t1 x, de_list ts' l' with Some a, Some b => Some (a :: b) | _, _ => None end
+    | _, _ => None
+    end.
+
+  (** [visit_seq] of a struct: the fields in declaration order, all of them, nothing left *)
+  Fixpoint de_fields_seq (fs : list (str * ty)) (l : list value) : option (list (str * sval)) :=
+    match fs, l with
+    | [], [] => Some []
+    | (n, t1) :: fs', x :: l' => match d t1 x, de_fields_seq fs' l' with Some a, Some b => Some ((n, a) :: b) | _, _ => None end
+    | _, _ => None
+    end.
+
+  (** [visit_map] of a struct: known fields decoded, unknown ones ignored, a missing [Option] field is [None] *)
+  Fixpoint de_fields_obj (o : list (str * value)) (fs : list (str * ty)) : option (list (str * sval)) :=
+    match fs with
+    | [] => Some []
+    | (n, t1) :: fs' =>
+        match (match obj_get o n with
+               | Some x => d t1 x
+               | None => if is_option t1 then Some SNone else None
+               end), de_fields_obj o fs' with
+        | Some a, Some b => Some ((n, a) :: b)
+        | _, _ => None
+        end
+    end.
+
+  (** the payload of a variant ([VariantDeserializer]); [p = None]: the enum was given as a bare string *)
+  Definition de_payload (n : str) (t1 : ty) (p : option value) : option sval :=
+    match t1 with
+    | TUnit =>                                               (* unit_variant *)
+        match p with
+        | None | Some VNull => Some (SUnitVariant n)
+        | Some _ => None
+        end
+    | TNewtype t2 =>                                         (* newtype_variant_seed *)
+        match p with Some x => option_map (SNewtypeVariant n) (d t2 x) | None => None end
+    | TTupleStruct ts =>                                     (* tuple_variant: [SeqDeserializer::deserialize_any] *)
+        match p with
+        | Some (VArr (x0 :: l0)) => option_map (STupleVariant n) (de_list ts (x0 :: l0))
+        | _ => None                                          (* an empty array is handed over as unit and refused *)
+        end
+    | TStruct fs =>                                          (* struct_variant: objects only *)
+        match p with
+        | Some (VObj o) => option_map (SStructVariant n) (de_fields_obj o fs)
+        | _ => None
+        end
+    | _ => None
+    end.
+
+  Fixpoint de_variant (name : str) (p : option value) (vs : list (str * ty)) : option sval :=
+    match vs with
+    | [] => None                                             (* unknown variant *)
+    | (n, t1) :: vs' => if str_eqb name n then de_payload n t1 p else de_variant name p vs'
+    end.
+End Parts.
+
 Fixpoint de (t : ty) (v : value) {struct t} : option sval :=
   match t with
   | TBool => match v with VBool b => Some (SBool b) | _ => None end
@@ -126,125 +205,21 @@ Fixpoint de (t : ty) (v : value) {struct t} : option sval :=
   | TOption t' => match v with VNull => Some SNone | _ => option_map SSome (de t' v) end   (* deserialize_option *)
   | TNewtype t' => option_map SNewtypeStruct (de t' v)                                      (* visit_newtype_struct(self) *)
   | TSeq t' => match v with VArr l => option_map SSeq (mapM (de t') l) | _ => None end
-  | TTuple ts =>
-      match v with
-      | VArr l =>
-          option_map STuple
-            ((fix go (ts : list ty) (l : list value) : option (list sval) :=
-                match ts, l with
-                | [], [] => Some []                                      (* every element consumed *)
-                | t1 :: ts', x :: l' => match de t1 x, go ts' l' with Some a, Some b => Some (a :: b) | _, _ => None end
-                | _, _ => None                                           (* too few / left over *)
-                end) ts l)
-      | _ => None
-      end
-  | TTupleStruct ts =>
-      match v with
-      | VArr l =>
-          option_map STupleStruct
-            ((fix go (ts : list ty) (l : list value) : option (list sval) :=
-                match ts, l with
-                | [], [] => Some []
-                | t1 :: ts', x :: l' => match de t1 x, go ts' l' with Some a, Some b => Some (a :: b) | _, _ => None end
-                | _, _ => None
-                end) ts l)
-      | _ => None
-      end
+  | TTuple ts => match v with VArr l => option_map STuple (de_list de ts l) | _ => None end
+  | TTupleStruct ts => match v with VArr l => option_map STupleStruct (de_list de ts l) | _ => None end
   | TStruct fs =>
       match v with
-      | VObj o =>                        (* visit_map: known fields decoded, unknown ignored, missing Option = None *)
-          option_map SStruct
-            ((fix go (fs : list (str * ty)) : option (list (str * sval)) :=
-                match fs with
-                | [] => Some []
-                | (n, t1) :: fs' =>
-                    match (match obj_get o n with
-                           | Some x => de t1 x
-                           | None => if is_option t1 then Some SNone else None
-                           end), go fs' with
-                    | Some a, Some b => Some ((n, a) :: b)
-                    | _, _ => None
-                    end
-                end) fs)
-      | VArr l =>                        (* visit_seq: the fields in declaration order, all of them, nothing left *)
-          option_map SStruct
-            ((fix go (fs : list (str * ty)) (l : list value) : option (list (str * sval)) :=
-                match fs, l with
-                | [], [] => Some []
-                | (n, t1) :: fs', x :: l' => match de t1 x, go fs' l' with Some a, Some b => Some ((n, a) :: b) | _, _ => None end
-                | _, _ => None
-                end) fs l)
+      | VObj o => option_map SStruct (de_fields_obj de o fs)
+      | VArr l => option_map SStruct (de_fields_seq de fs l)
       | _ => None
       end
   | TEnum vs =>
-      let payload (name : str) (p : option value) : option sval :=
-        (fix find (vs : list (str * ty)) : option sval :=
-           match vs with
-           | [] => None                                                   (* unknown variant *)
-           | (n, t1) :: vs' =>
-               if str_eqb name n then
-                 match t1 with
-                 | TUnit =>                                               (* unit_variant *)
-                     match p with
-                     | None | Some VNull => Some (SUnitVariant n)
-                     | Some _ => None
-                     end
-                 | TNewtype t2 =>                                         (* newtype_variant_seed *)
-                     match p with Some x => option_map (SNewtypeVariant n) (de t2 x) | None => None end
-                 | TTupleStruct ts =>                                     (* tuple_variant: [SeqDeserializer::deserialize_any] *)
-                     match p with
-                     | Some (VArr (x0 :: l0)) =>                          (* an empty array is handed over as unit and refused *)
-                         option_map (STupleVariant n)
-                           ((fix go (ts : list ty) (l : list value) : option (list sval) :=
-                               match ts, l with
-                               | [], [] => Some []
-                               | t3 :: ts', x :: l' => match de t3 x, go ts' l' with Some a, Some b => Some (a :: b) | _, _ => None end
-                               | _, _ => None
-                               end) ts (x0 :: l0))
-                     | _ => None
-                     end
-                 | TStruct fs =>                                          (* struct_variant: objects only *)
-                     match p with
-                     | Some (VObj o) =>
-                         option_map (SStructVariant n)
-                           ((fix go (fs : list (str * ty)) : option (list (str * sval)) :=
-                               match fs with
-                               | [] => Some []
-                               | (fn, t3) :: fs' =>
-                                   match (match obj_get o fn with
-                                          | Some x => de t3 x
-                                          | None => if is_option t3 then Some SNone else None
-                                          end), go fs' with
-                                   | Some a, Some b => Some ((fn, a) :: b)
-                                   | _, _ => None
-                                   end
-                               end) fs)
-                     | _ => None
-                     end
-                 | _ => None
-                 end
-               else find vs'
-           end) vs in
       match v with
-      | VStr name => payload name None
-      | VObj [(name, x)] => payload name (Some x)
+      | VStr name => de_variant de name None vs
+      | VObj [(name, x)] => de_variant de name (Some x) vs
       | _ => None                                                         (* "map with a single key" / "string or map" *)
       end
-  | TMap k t' =>
-      match v with
-      | VObj o =>
-          option_map SMap
-            ((fix go (o : list (str * value)) (acc : list (sval * sval)) : option (list (sval * sval)) :=
-                match o with
-                | [] => Some acc
-                | (ks, x) :: o' =>
-                    match dekey k ks, de t' x with
-                    | Some a, Some b => go o' (map_insert k acc a b)
-                    | _, _ => None
-                    end
-                end) o [])
-      | _ => None
-      end
+  | TMap k t' => match v with VObj o => option_map SMap (de_entries k (de t') o []) | _ => None end
   | TValue => if value_has_expref v then None else Some (sval_of_value v)
   end.
 
